@@ -19,6 +19,8 @@ pub mod fak;
 pub mod libk;
 pub mod c12;
 pub mod misc;
+pub mod rsk;
+pub mod pilot;
 pub mod c18;
 pub mod c19;
 
@@ -35,12 +37,15 @@ pub fn registry() -> Vec<(&'static str, fn(&mut nd::TapeNd))> {
     v.extend(fak::registry());
     v.extend(fak::registry2());
     v.extend(fak::registry3());
+    v.extend(fak::registry4());
 
     v.extend(fqk::registry2());
     v.extend(fqk::registry3());
     v.extend(libk::registry());
     v.extend(c12::registry());
     v.extend(misc::registry());
+    v.extend(rsk::registry());
+    v.extend(pilot::registry());
     v.extend(c18::registry());
     v.extend(c19::registry());
     v
